@@ -163,6 +163,36 @@ Theorem C16_measure_chain_invariant : forall (E : Type) (chain : list ((E -> lis
 Proof. intros E chain entries shape H1 H2. split; [now apply measure_chain_length|apply measure_chain_shape]. Qed.
 Print Assumptions C16_measure_chain_invariant.
 
+(* ---- _compose_qoperations_MProcess_StateEnsemble as coded (Model/C16_Compose.v; the per-state measurement is an oracle that may raise):
+        the collected table IS measure_all of the old table, the first raising measurement (in order) aborts with its exception *)
+From QV.Model Require Import C16_PySem C16_Compose.
+From QV.Proofs Require Import C16_Compose.
+Theorem C16_collect_is_measure_all : forall (F : OF) (St : Type) (meas : St -> F -> pyres (list St * list F)) (M : nat) old ss pp,
+  collect F St meas old = PRet (ss, pp) -> blocks_ok F St meas M old ->
+  length ss = length pp /\ combine ss pp = measure_all (block_of F St meas) old /\ length ss = (length old * M)%nat.
+Proof. exact collect_is_measure_all. Qed.
+Print Assumptions C16_collect_is_measure_all.
+
+Theorem C16_collect_first_raise : forall (F : OF) (St : Type) (meas : St -> F -> pyres (list St * list F)) pre s p post exc,
+  (forall s0 p0, In (s0, p0) pre -> exists r, meas s0 p0 = PRet r) -> meas s p = PRaise exc ->
+  collect F St meas (pre ++ (s, p) :: post) = PRaise exc.
+Proof. exact collect_first_raise. Qed.
+Print Assumptions C16_collect_first_raise.
+
+(* the new ensemble: states = first components of the measured table, the probabilities handed to the new distribution's constructor
+   (default threshold) = second components, as many entries as old entries x outcomes, eps_zero = max of the two *)
+Theorem C16_compose_ens_table : forall (F : OF) (tol : F) (St : Type) meas zero_obj mshape mp_eps old_shape (e e' : ensemble F St),
+  compose_ens F tol St meas zero_obj mshape mp_eps old_shape e = PRet e' ->
+  md_is_zero_dist F (ens_prob_dist e) = false ->
+  blocks_ok F St meas (prodn mshape) (combine (ens_states e) (md_ps F (ens_prob_dist e))) ->
+  let T := measure_all (block_of F St meas) (combine (ens_states e) (md_ps F (ens_prob_dist e))) in
+  ens_states e' = map fst T /\
+  md_new F tol (map snd T) (old_shape ++ mshape) = PRet (ens_prob_dist e') /\
+  length T = (length (combine (ens_states e) (md_ps F (ens_prob_dist e))) * prodn mshape)%nat /\
+  ens_eps_zero e' = py_max F mp_eps (ens_eps_zero e).
+Proof. exact compose_ens_table. Qed.
+Print Assumptions C16_compose_ens_table.
+
 (* accepted, non-zero marginals and conditionals are entrywise non-negative and sum to 1 within the validation tolerance *)
 Theorem C16_marginalize_normalised : forall (F : OF) tol d rem d', kle F (c0 F) tol -> tol <> c0 F ->
   marginalize F tol d rem = MOk d' -> d_zero F d' = false -> normalised F tol d'.
